@@ -17,6 +17,7 @@ package mask
 // additionally sorts the groups so that text order is the order of writing).
 
 //@ func (*Mask).maskValue
+//@   option check-nil yes
 //@   requires m.Re_ != nil
 //@   requires allrange(m.Groups, 0, uf_nsub(m.Re_) + 1)
 //@   requires m.mode == modeMask || m.mode == modeReplace || m.mode == modeCut
@@ -34,6 +35,7 @@ package mask
 // max_count) - the rune count being that of src[begin:end], counted once.
 
 //@ func (*Mask).maskSection
+//@   option check-nil yes
 //@   requires 0 <= begin && begin <= end && end <= len(src)
 //@   requires m.mode == modeMask || m.mode == modeReplace || m.mode == modeCut
 //@   ensures m.mode == modeCut ==> result == dst
@@ -223,11 +225,13 @@ package mask
 // ignored, the process list as processed - that mark and nothing else of the node.
 
 //@ func (*Plugin).gatherFieldMasksTree$3
+//@   option check-nil yes
 //@   requires n != nil
 //@   modifies n.globalIgnore
 //@   ensures n.globalIgnore
 
 //@ func (*Plugin).gatherFieldMasksTree$4
+//@   option check-nil yes
 //@   requires n != nil
 //@   modifies n.globalProcess
 //@   ensures n.globalProcess
@@ -243,6 +247,7 @@ package mask
 // configuration itself (re, replace_word, max_count, cut_values) is not altered.
 
 //@ func compileMask
+//@   option check-nil yes
 //@   option allow-exit yes
 //@   preserves Plugin
 //@   requires m != nil
@@ -286,6 +291,7 @@ package mask
 // Requires what compileMask establishes: every rule of every set is prepared.
 
 //@ func (*Mask).checkMatchRules
+//@   option check-nil yes
 //@   ghost nset int = 0
 //@   ghost anyset bool = false
 //@   requires forall a, b :: 0 <= a && a < len(m.MatchRules) && 0 <= b && b < len(m.MatchRules[a].Rules) ==> m.MatchRules[a].Rules[b].prepared && m.MatchRules[a].Rules[b].maxValueSize >= 0 && (m.MatchRules[a].Rules[b].Mode == matchrule.ModeContains || m.MatchRules[a].Rules[b].Mode == matchrule.ModePrefix || m.MatchRules[a].Rules[b].Mode == matchrule.ModeSuffix)
@@ -311,6 +317,7 @@ package mask
 // configuration.
 
 //@ func compileMasks
+//@   option check-nil yes
 //@   option allow-exit yes
 //@   preserves Plugin
 //@   ghost ncomp int = 0
@@ -332,6 +339,7 @@ package mask
 // nothing else of the plugin is written in any case.
 
 //@ func (*Plugin).gatherFieldPaths
+//@   option check-nil yes
 //@   ghost npar int = 0
 //@   ghost gerr bool = false
 //@   ghost grref int = 0
@@ -374,6 +382,7 @@ package mask
 // ignore, global process).
 
 //@ func (*Plugin).gatherFieldMasksTree
+//@   option check-nil yes
 //@   ghost npar int = 0
 //@   ghost nadd int = 0
 //@   ghost gprref int = 0
